@@ -78,6 +78,8 @@ def lattice(tier):
     for mode in modes:
         for ysp in (0.0, 0.5):
             out.append(dict(off=(1.5, -1.5, 1.5), att=(math.radians(30.0), (1.0, 0, 0), 1), v=(1.0, -1.0, 0.5), w=(1.0, -1.0, 0.5), yaw=ysp, mode=mode, target=targets[0], plant="dae"))
+        # released at rest (zero velocity and rate: the implicit integrator differentiates the model exactly where |v| = 0)
+        out.append(dict(off=(0.5, 0.0, -1.0), att=(0.0, (0, 0, 1.0), 1), v=(0.0, 0.0, 0.0), w=(0.0, 0.0, 0.0), yaw=0.0, mode=mode, target=targets[0], plant="dae"))
     return out
 
 
